@@ -155,6 +155,10 @@ pub fn replay(case: &J, thorough: bool, cli: Option<&str>, idx: usize) -> J {
         check_program(&format!("m = 1\n({})\noutput m", min), widths, use_cli, &mut mism, &mut evals);
         check_program(&format!("m = 1 // note\n// a comment line\n({})", min), widths, None, &mut mism, &mut evals);
     }
+    // ... and the same inside a do-block: as a later statement, below the block's own comment lines, and as the returned value
+    if idx % 4 == 2 {
+        check_program(&format!("g = w => do {{\n  m = w\n  // a comment line\n  ({})\n  // another\n\n  // and another\n  ({})\n  return ({})\n}}", min, min, min), widths, None, &mut mism, &mut evals);
+    }
     crate::ev::clear_stats();
     json!({"evals": evals, "mismatches": mism})
 }
